@@ -493,14 +493,19 @@ Loop:
 			return ovsdb.OperationResult{}
 		}
 
-		if timeout != nil {
-			// TODO(trozet): this really shouldn't just break and loop on a time interval
-			// Really this client handler should pause, wait for another handler to update the DB
-			// and then try again. However the server is single threaded for now and not capable of
-			// doing something like that.
-			if time.Since(start) > time.Duration(*timeout)*time.Millisecond {
-				break Loop
-			}
+		if timeout == nil {
+			// No limit was given. The server runs a transaction while holding its
+			// transaction lock, so nothing this operation waits for can change
+			// before it returns: a condition that does not hold now never will,
+			// and polling would keep every other client out for ever.
+			break Loop
+		}
+		// TODO(trozet): this really shouldn't just break and loop on a time interval
+		// Really this client handler should pause, wait for another handler to update the DB
+		// and then try again. However the server is single threaded for now and not capable of
+		// doing something like that.
+		if time.Since(start) > time.Duration(*timeout)*time.Millisecond {
+			break Loop
 		}
 		time.Sleep(200 * time.Millisecond)
 	}
